@@ -101,9 +101,11 @@ type SendSpec struct {
 	Tags     int  `json:"tags"`
 	Seed     int  `json:"seed"`
 	Len      int  `json:"len"`
-	Wait     bool `json:"wait"`    // first argument of write
-	Prefill  int  `json:"prefill"` // packets already waiting in the send channel
-	Random   bool `json:"random"`  // random payload bytes (oracle only, no model case)
+	Wait     bool `json:"wait"`      // first argument of write
+	Prefill  int  `json:"prefill"`   // packets already waiting in the send channel
+	Random   bool `json:"random"`    // random payload bytes (oracle only, no model case)
+	FixGroup bool `json:"fix_group"` // the history chooses the group id (otherwise: the real random draw of write)
+	Group    int  `json:"group"`     // the group id the draw is to return when fix_group is set
 }
 
 type HistSpec struct {
@@ -184,6 +186,7 @@ type sent struct {
 	frs     []*com.Packet
 	obs     []obsPkt
 	group   int64
+	frag    bool // write produced fragments (FlagFrag set)
 }
 
 type item struct{ s, k int } // s < 0: sweep
@@ -233,14 +236,25 @@ func runHistory(h HistSpec) {
 				panic("prefilled packets vanished")
 			}
 			st.frs = q[sp.Prefill:]
-			st.group = 0
+			st.group, st.frag = 0, false
 			if len(st.frs) > 0 && st.frs[0].Flags&com.FlagFrag != 0 {
+				st.frag = true
+				if sp.FixGroup {
+					// the group id is a random draw of write (uint16(util.FastRand())): the history chooses
+					// its value, as if the draw had returned it; SetGroup only replaces that field
+					for _, f := range st.frs {
+						f.Flags.SetGroup(uint16(sp.Group))
+					}
+				}
 				st.group = int64(st.frs[0].Flags.Group())
 			}
-			if st.group != 0 && groups[st.group] && try < 50 {
+			if st.frag && !sp.FixGroup && groups[st.group] && try < 50 {
 				continue // the random group id collided inside this history: draw again
 			}
-			if len(st.frs) > 1 || st.group != 0 {
+			if st.frag && sp.FixGroup && groups[st.group] {
+				panic("history with two groups of the same explicit id")
+			}
+			if st.frag {
 				groups[st.group] = true
 			}
 			for k, f := range st.frs {
@@ -474,7 +488,7 @@ func runHistory(h HistSpec) {
 			case !bytes.Equal(delivered[mine[0]].payload, st.payload):
 				fails = append(fails, fmt.Sprintf("send %d delivered with a different payload (%d bytes for %d)", i, len(delivered[mine[0]].payload), len(st.payload)))
 			}
-			if st.group != 0 {
+			if st.frag {
 				for _, r := range residue {
 					if int64(r.Group) == st.group && len(mine) > 0 {
 						fails = append(fails, fmt.Sprintf("send %d: completed group 0x%X left a cluster behind", i, st.group))
@@ -751,6 +765,34 @@ func main() {
 				h.Sched = append(h.Sched, [2]int{-1, 0})
 			}
 			h.Sched = append(h.Sched, [2]int{0, 2})
+			hist(h)
+		}
+	}
+	// ---- chosen group ids (the draw of write is uint16(util.FastRand()): every value is possible): the ids a
+	// zero-initialised list, a sign or an off-by-one would hit, alone and next to other groups, with a
+	// wake-up before every arrival (client side) and without (server side)
+	{
+		ids := []int{0, 1, 2, 0x7FFF, 0x8000, 0xFFFE, 0xFFFF}
+		fixed := func(n, g int) SendSpec {
+			sp := mkSend(rng, n)
+			sp.FixGroup, sp.Group, sp.Tags = true, g, 0
+			return sp
+		}
+		for gi, g := range ids {
+			// alone, three fragments, wake-ups between them
+			hist(HistSpec{Class: "group-ids", Dir: "s2c", Order: "identity", Omit: -1, Sends: []SendSpec{fixed(2*F+1000, g)},
+				Sched: [][2]int{{-1, 0}, {0, 0}, {-1, 0}, {0, 2}, {-1, 0}, {-1, 0}, {0, 1}, {-1, 0}}})
+			// next to a group with another chosen id and one with a drawn id; group 0 is pending while the others come and go
+			o := ids[(gi+1)%len(ids)]
+			hist(HistSpec{Class: "group-ids-interleaved", Dir: "s2c", Order: "identity", Omit: -1,
+				Sends: []SendSpec{fixed(2*F+1000, g), fixed(F+500, o), mkSend(rng, F+700)},
+				Sched: [][2]int{{0, 0}, {-1, 0}, {1, 0}, {-1, 0}, {2, 0}, {-1, 0}, {0, 1}, {-1, 0}, {1, 1}, {-1, 0}, {-1, 0}, {2, 1}, {-1, 0}, {0, 2}, {-1, 0}}})
+			// an incomplete group of that id is swept after five wake-ups, another group that keeps arriving is not
+			hist(HistSpec{Class: "group-ids-omission", Dir: "s2c", Order: "identity", Omit: -1,
+				Sends: []SendSpec{fixed(2*F+1000, g), fixed(3*F+500, o)},
+				Sched: [][2]int{{0, 0}, {-1, 0}, {1, 0}, {-1, 0}, {0, 1}, {-1, 0}, {-1, 0}, {1, 1}, {-1, 0}, {-1, 0}, {1, 2}, {-1, 0}, {-1, 0}, {1, 3}, {-1, 0}}})
+			// server side (never sweeps), random order
+			h := HistSpec{Class: "group-ids", Dir: "c2s", Order: "perm0", Omit: -1, Sends: []SendSpec{fixed(2*F+1000, g), fixed(F+500, o)}}
 			hist(h)
 		}
 	}
